@@ -3,82 +3,37 @@
 #include "vp_harness.h"
 
 using namespace QXmpp::Private;
-extern "C" { unsigned vp_c05_noff(); unsigned vp_c05_ndis(); }
+extern "C" {
+unsigned vp_c05_noff(); unsigned vp_c05_ndis();          // list lengths of the instance (constants on the C side)
+void *vp_c05_slot(unsigned k); void vp_c05_set_id(unsigned k, unsigned id);   // name slots owned by c05_str.c
+}
 
 // ---------------------------------------------------------------------------------------------------------------------
-// Name table (constant strings). Written from the property text / the XEPs, not from the implementation:
-// family rank (strength): HT token 6 > SCRAM 5 (by hash) > DIGEST-MD5 4 > PLAIN 3 > ANONYMOUS 2; X-* mechanisms are
-// unranked (the property does not place them), rank 0 = not a mechanism name the client knows.
+// Reference side, written from the property text / the RFCs and XEPs - not from the implementation.
+// Strength order of the property: HT token > SCRAM (by hash) > DIGEST-MD5 > PLAIN > ANONYMOUS.  The X-* mechanisms are
+// not ranked by the property (no order assertion involves them).
 // ---------------------------------------------------------------------------------------------------------------------
 enum Fam { F_NONE = 0, F_XGOOGLE, F_XLIVE, F_XFACEBOOK, F_ANON, F_PLAIN, F_DIGEST, F_SCRAM, F_HT };
 enum { CB_ENDP = 0, CB_UNIQ = 1, CB_EXPR = 2, CB_NONE = 3 };
 struct Desc { Fam fam; int hash; int cb; };
 
 #include "table.inc"
+static_assert(IDX_EMPTY == 38, "c05_cut.c: C05_ID_EMPTY");
 
-// A name is materialised as a QString over harness-owned static storage (one slot per use, so that every data pointer is
-// concrete): size and characters are the row of NAME_TAB selected by the symbolic index.
-struct Slot { QArrayData hdr; char16_t data[C05_MAXLEN]; };
-static Slot slots[VP_NOFF + VP_NDIS + 1] = {};
+// A name is materialised as a QString over a static block (one slot per use, so that every data pointer is concrete):
+// size and characters are those of the table row selected by the symbolic index; the row is also recorded as ghost id.
+struct Slot { QArrayData hdr; char16_t data[C05_MAXLEN]; unsigned id; };
 static QString nameOf(unsigned slot, unsigned i)
 {
-    Slot &s = slots[slot];
+    Slot &s = *static_cast<Slot *>(vp_c05_slot(slot));
     s.hdr.ref.atomic.storeRelaxed(-1);   // static data, never freed (as QStringLiteral)
-    s.hdr.size = NAME_LEN[i]; s.hdr.alloc = 0; s.hdr.capacityReserved = 0; s.hdr.offset = sizeof(QArrayData);
-    for (int j = 0; j < C05_MAXLEN; j++) s.data[j] = NAME_TAB[i][j];
+    s.hdr.alloc = 0; s.hdr.capacityReserved = 0; s.hdr.offset = sizeof(QArrayData);
+    s.hdr.size = int(fillName(i, s.data));
+    vp_c05_set_id(slot, i);
     return QString(QStringDataPtr { static_cast<QStringData *>(&s.hdr) });
 }
 
-
-struct Sym {
-    unsigned offered[VP_NOFF]; unsigned nOff;
-    unsigned disabled[VP_NDIS]; unsigned nDis;
-    unsigned preferred; bool hasPreferred;
-    bool password, fbToken, fbApp, liveToken, googleToken, hasHt;
-    int htHash, htCb;
-};
-
-static bool isDisabled(const Sym &s, unsigned name)
-{
-    for (unsigned k = 0; k < VP_NDIS; k++)
-        if (k < s.nDis && s.disabled[k] == name) return true;
-    return false;
-}
-// usable with the stored credentials
-static bool usable(const Sym &s, Desc d)
-{
-    switch (d.fam) {
-    case F_HT: return s.hasHt && s.htHash == d.hash && s.htCb == d.cb && d.cb == CB_NONE;
-    case F_SCRAM: case F_DIGEST: case F_PLAIN: return s.password;
-    case F_ANON: return true;
-    case F_XFACEBOOK: return s.fbToken && s.fbApp;
-    case F_XLIVE: return s.liveToken;
-    case F_XGOOGLE: return s.googleToken;
-    default: return false;
-    }
-}
-// offered /\ supported /\ enabled /\ usable
-static bool candidate(const Sym &s, unsigned name)
-{
-    Desc d = descOf(name);
-    return d.fam != F_NONE && !isDisabled(s, name) && usable(s, d);
-}
-static bool offered(const Sym &s, unsigned name)
-{
-    for (unsigned k = 0; k < VP_NOFF; k++)
-        if (k < s.nOff && s.offered[k] == name) return true;
-    return false;
-}
-// strictly stronger under the order of the property statement (only for ranked families)
-static bool ranked(Desc d) { return d.fam >= F_ANON; }
-static bool stronger(Desc a, Desc b)
-{
-    if (a.fam != b.fam) return a.fam > b.fam;
-    if (a.fam == F_SCRAM) return a.hash > b.hash;
-    return false;
-}
-
-// meaning of the implementation's result, by alternative type / enumerator name (independent of their numeric order)
+// enumerators <-> reference numbering, by NAME (independent of the numeric order in the implementation's headers)
 static int scramHash(SaslScramMechanism::Algorithm a)
 {
     switch (a) {
@@ -88,6 +43,15 @@ static int scramHash(SaslScramMechanism::Algorithm a)
     case SaslScramMechanism::Sha3_512: return 3;
     }
     return -1;
+}
+static SaslScramMechanism::Algorithm scramOf(int h)
+{
+    switch (h) {
+    case 0: return SaslScramMechanism::Sha1;
+    case 1: return SaslScramMechanism::Sha256;
+    case 2: return SaslScramMechanism::Sha512;
+    default: return SaslScramMechanism::Sha3_512;
+    }
 }
 static int ianaHash(IanaHashAlgorithm a)
 {
@@ -148,9 +112,75 @@ static Desc descOfResult(const SaslMechanism &m)
 }
 static bool sameDesc(Desc a, Desc b) { return a.fam == b.fam && a.hash == b.hash && a.cb == b.cb; }
 
+// the mechanism value that table row `id` denotes (nullopt for rows that are not mechanism names); also the body of the
+// fromString cut (c05_cut.c) - instance parse_table proves that the REAL SaslMechanism::fromString agrees with it on every row
+extern "C" void vp_c05_make_mech(unsigned id, void *outp)
+{
+    auto *out = new (outp) std::optional<SaslMechanism>();
+    Desc d = descOf(id);
+    switch (d.fam) {
+    case F_XGOOGLE: *out = SaslMechanism { SaslXGoogleMechanism() }; break;
+    case F_XLIVE: *out = SaslMechanism { SaslXWindowsLiveMechanism() }; break;
+    case F_XFACEBOOK: *out = SaslMechanism { SaslXFacebookMechanism() }; break;
+    case F_ANON: *out = SaslMechanism { SaslAnonymousMechanism() }; break;
+    case F_PLAIN: *out = SaslMechanism { SaslPlainMechanism() }; break;
+    case F_DIGEST: *out = SaslMechanism { SaslDigestMd5Mechanism() }; break;
+    case F_SCRAM: *out = SaslMechanism { SaslScramMechanism { scramOf(d.hash) } }; break;
+    case F_HT: *out = SaslMechanism { SaslHtMechanism { ianaOf(d.hash), cbOf(d.cb) } }; break;
+    default: break;
+    }
+}
+
+struct Sym {
+    unsigned offered[VP_NOFF]; unsigned nOff;
+    unsigned disabled[VP_NDIS]; unsigned nDis;
+    unsigned preferred; bool hasPreferred;
+    bool password, fbToken, fbApp, liveToken, googleToken, hasHt;
+    int htHash, htCb;
+};
+
+static bool isDisabled(const Sym &s, unsigned name)
+{
+    for (unsigned k = 0; k < VP_NDIS; k++)
+        if (k < s.nDis && s.disabled[k] == name) return true;
+    return false;
+}
+// usable with the stored credentials
+static bool usable(const Sym &s, Desc d)
+{
+    switch (d.fam) {
+    case F_HT: return s.hasHt && s.htHash == d.hash && s.htCb == d.cb && d.cb == CB_NONE;
+    case F_SCRAM: case F_DIGEST: case F_PLAIN: return s.password;
+    case F_ANON: return true;
+    case F_XFACEBOOK: return s.fbToken && s.fbApp;
+    case F_XLIVE: return s.liveToken;
+    case F_XGOOGLE: return s.googleToken;
+    default: return false;
+    }
+}
+// supported /\ enabled /\ usable
+static bool permitted(const Sym &s, unsigned name)
+{
+    Desc d = descOf(name);
+    return d.fam != F_NONE && !isDisabled(s, name) && usable(s, d);
+}
+static bool offered(const Sym &s, unsigned name)
+{
+    for (unsigned k = 0; k < VP_NOFF; k++)
+        if (k < s.nOff && s.offered[k] == name) return true;
+    return false;
+}
+static bool ranked(Desc d) { return d.fam >= F_ANON; }
+static bool stronger(Desc a, Desc b)   // strictly stronger under the order of the property statement
+{
+    if (a.fam != b.fam) return a.fam > b.fam;
+    if (a.fam == F_SCRAM) return a.hash > b.hash;
+    return false;
+}
+
 static void makeSym(Sym &s)
 {
-    s.nOff = vp_c05_noff(); vp_assume(s.nOff <= VP_NOFF);      // list lengths are fixed per instance (-DC05_NOFF/-DC05_NDIS on the C side)
+    s.nOff = vp_c05_noff(); vp_assume(s.nOff <= VP_NOFF);
     for (unsigned k = 0; k < VP_NOFF; k++) { s.offered[k] = vp_u32(); vp_assume(s.offered[k] < N_NAMES); }
     s.nDis = vp_c05_ndis(); vp_assume(s.nDis <= VP_NDIS);
     for (unsigned k = 0; k < VP_NDIS; k++) { s.disabled[k] = vp_u32(); vp_assume(s.disabled[k] < N_NAMES); }
@@ -178,159 +208,91 @@ static void applyConfig(QXmppConfiguration &config, const Sym &s, bool defaultDi
     if (s.hasHt) c.htToken = HtToken { SaslHtMechanism { ianaOf(s.htHash), cbOf(s.htCb) }, secret, QDateTime() };
 }
 
+static QList<QString> makeOffer(const Sym &s)
+{
+    QList<QString> off;
+    for (unsigned k = 0; k < VP_NOFF; k++)
+        if (k < s.nOff) off.append(nameOf(k, s.offered[k]));
+    return off;
+}
+
+// the oracle
 static void checkChoice(const Sym &s, const std::optional<SaslMechanism> &res)
 {
     bool any = false;
     for (unsigned k = 0; k < VP_NOFF; k++)
-        if (k < s.nOff && candidate(s, s.offered[k])) any = true;
+        if (k < s.nOff && permitted(s, s.offered[k])) any = true;
 
     if (!res) {
         vp_assert(!any, "C05 a permitted mechanism is offered but none was chosen");
         return;
     }
-    vp_assert(any, "C05 a mechanism was chosen although nothing qualifies (must be mismatch)");
+    vp_assert(any, "C05 a mechanism was chosen although nothing qualifies (must be a mechanism mismatch)");
     Desc r = descOfResult(*res);
     // the chosen mechanism is one of the offered names, and that name is permitted
     bool found = false;
     for (unsigned k = 0; k < VP_NOFF; k++)
-        if (k < s.nOff && sameDesc(descOf(s.offered[k]), r) && descOf(s.offered[k]).fam != F_NONE) {
+        if (k < s.nOff && descOf(s.offered[k]).fam != F_NONE && sameDesc(descOf(s.offered[k]), r)) {
             found = true;
             vp_assert(!isDisabled(s, s.offered[k]), "C05 disabled mechanism chosen");
             vp_assert(usable(s, r), "C05 mechanism chosen that is not usable with the stored credentials");
         }
     vp_assert(found, "C05 chosen mechanism was not offered");
     // preferred wins iff it is itself offered and permitted
-    bool prefOk = s.hasPreferred && offered(s, s.preferred) && candidate(s, s.preferred);
+    bool prefOk = s.hasPreferred && offered(s, s.preferred) && permitted(s, s.preferred);
     if (prefOk) {
         vp_assert(sameDesc(r, descOf(s.preferred)), "C05 preferred mechanism is offered and permitted but was not used");
     } else {
         // strongest: no permitted offered mechanism is strictly stronger (order of the property statement)
         for (unsigned k = 0; k < VP_NOFF; k++)
-            if (k < s.nOff && candidate(s, s.offered[k])) {
+            if (k < s.nOff && permitted(s, s.offered[k])) {
                 Desc o = descOf(s.offered[k]);
                 if (ranked(o) && ranked(r)) vp_assert(!stronger(o, r), "C05 a stronger permitted mechanism was offered");
             }
     }
 }
 
-// every offer list (<= VP_NOFF names from the table), every disabled list, every preferred name, every credential set
+// ---- lemma: the REAL parser on every table row (symbolic row index); group `parse` (no cut) -------------------------
+#ifndef VP_ROW_LO
+#define VP_ROW_LO 0
+#define VP_ROW_HI 1000
+#endif
+extern "C" void h_parse_table()
+{
+    unsigned i = vp_u32(); vp_assume(i >= VP_ROW_LO && i < VP_ROW_HI && i < N_NAMES);
+    QString name = nameOf(0, i);
+    auto m = SaslMechanism::fromString(name);
+    std::optional<SaslMechanism> ref; vp_c05_make_mech(i, &ref);
+    vp_assert(m.has_value() == ref.has_value(), "C05 parser: a table name is accepted iff it is a mechanism name");
+    if (m && ref) {
+        vp_assert(sameDesc(descOfResult(*m), descOfResult(*ref)), "C05 parser: name parsed as a different mechanism");
+        vp_assert(sameDesc(descOfResult(*m), descOf(i)), "C05 parser: name parsed as a different mechanism (table)");
+    }
+}
+
+// ---- every offer list, every disabled list, every preferred name, every credential set ------------------------------
+static void keepHelpers() { std::optional<SaslMechanism> t; vp_c05_make_mech(IDX_EMPTY, &t); }   // make the helper reachable for the cut model
 extern "C" void h_choose()
 {
+    keepHelpers();
     Sym s; makeSym(s);
     QXmppConfiguration config;
     applyConfig(config, s, false);
-    QList<QString> off;
-    for (unsigned k = 0; k < VP_NOFF; k++)
-        if (k < s.nOff) off.append(nameOf(k, s.offered[k]));
+    QList<QString> off = makeOffer(s);
     auto [mech, disabledAvailable] = chooseMechanism(config, off);
     checkChoice(s, mech);
 }
 
-// default configuration (nothing set by the user except credentials): PLAIN is disabled
+// default configuration (nothing set by the user except credentials / preferred mechanism): PLAIN is disabled
 extern "C" void h_default_plain()
 {
-    Sym s; makeSym(s); s.nDis = 0; s.hasPreferred = vp_bool();
+    keepHelpers();
+    Sym s; makeSym(s); s.nDis = 0;
     QXmppConfiguration config;
     applyConfig(config, s, true);
-    QList<QString> off;
-    for (unsigned k = 0; k < VP_NOFF; k++)
-        if (k < s.nOff) off.append(nameOf(k, s.offered[k]));
+    QList<QString> off = makeOffer(s);
     auto [mech, disabledAvailable] = chooseMechanism(config, off);
     if (mech) vp_assert(!std::holds_alternative<SaslPlainMechanism>(*mech), "C05 PLAIN chosen under the default configuration (PLAIN is disabled by default)");
     s.nDis = 1; s.disabled[0] = IDX_PLAIN;
     checkChoice(s, mech);
 }
-
-#ifdef VP_DEBUG_ENTRIES
-extern "C" void h_dbg3()
-{
-    Sym s; makeSym(s);
-    QXmppConfiguration config;
-    applyConfig(config, s, false);
-    auto d = config.disabledSaslMechanisms();
-    int c = 0; for (const auto &x : d) c++;
-    vp_assert(c == 2, "C05 dbg");
-}
-extern "C" void h_dbg4()
-{
-    Sym s; makeSym(s);
-    QList<QString> d;
-    for (unsigned k = 0; k < VP_NDIS; k++)
-        if (k < s.nDis) d.append(nameOf(VP_NOFF + k, s.disabled[k]));
-    int c = 0; for (const auto &x : d) c++;
-    vp_assert(c == 2, "C05 dbg");
-}
-extern "C" void h_dbg5()
-{
-    QList<QString> d;
-    for (unsigned k = 0; k < VP_NDIS; k++)
-        d.append(nameOf(VP_NOFF + k, 3));
-    int c = 0; for (const auto &x : d) c++;
-    vp_assert(c == 2, "C05 dbg");
-}
-extern "C" void h_dbg6()
-{
-    Sym s; makeSym(s);
-    QXmppConfiguration config;
-    applyConfig(config, s, false);
-    QList<QString> off;
-    for (unsigned k = 0; k < VP_NOFF; k++)
-        if (k < s.nOff) off.append(nameOf(k, s.offered[k]));
-    const auto disabled = config.disabledSaslMechanisms();
-    bool r = disabled.contains(off.at(0));
-    vp_assert(r == (s.offered[0] == s.disabled[0] || s.offered[0] == s.disabled[1]), "C05 dbg");
-}
-extern "C" void h_dbg7()
-{
-    Sym s; makeSym(s);
-    QXmppConfiguration config;
-    applyConfig(config, s, false);
-    QList<QString> off;
-    for (unsigned k = 0; k < VP_NOFF; k++)
-        if (k < s.nOff) off.append(nameOf(k, s.offered[k]));
-    const auto disabled = config.disabledSaslMechanisms();
-    QStringList da;
-    auto isEnabled = [&](const QString &mechanism) {
-        if (disabled.contains(mechanism)) { da.push_back(mechanism); return false; }
-        return true; };
-    const QList<QString> &coff = off;
-    auto v = coff | views::filter(isEnabled);
-    int c = 0; for (auto it = v.begin(); it != v.end(); ++it) c++;
-    vp_assert(c <= 3, "C05 dbg");
-}
-extern "C" void h_dbg8()
-{
-    QStringList da; QString x = QStringLiteral("x");
-    if (vp_bool()) da.push_back(x);
-    if (vp_bool()) da.push_back(x);
-    vp_assert(da.size() <= 2, "C05 dbg");
-}
-extern "C" void h_dbg9()
-{
-    QList<QString> off; QString x = QStringLiteral("x");
-    off.append(x); off.append(x); off.append(x);
-    QStringList da;
-    auto isEnabled = [&](const QString &mechanism) {
-        if (vp_bool()) { da.push_back(mechanism); return false; }
-        return true; };
-    const QList<QString> &coff = off;
-    auto v = coff | views::filter(isEnabled);
-    int c = 0; for (auto it = v.begin(); it != v.end(); ++it) c++;
-    vp_assert(c <= 3, "C05 dbg");
-}
-extern "C" void h_dbg1()
-{
-    QList<QString> l; l.append(QStringLiteral("a"));
-    int c = 0; for (const auto &x : l) c++;
-    vp_assert(c == 1, "C05 dbg");
-}
-extern "C" void h_dbg2()
-{
-    QXmppConfiguration config;
-    QList<QString> l; l.append(QStringLiteral("a"));
-    config.setDisabledSaslMechanisms(l);
-    auto d = config.disabledSaslMechanisms();
-    int c = 0; for (const auto &x : d) c++;
-    vp_assert(c == 1, "C05 dbg");
-}
-#endif
